@@ -21,7 +21,7 @@ func init() { hx.Register("c12", func() hx.Property { return &c12{} }) }
 
 type c12 struct{}
 
-const c12Import = "From Helm Require Import Engine.Types Engine.Eff Engine.Ops Engine.Cluster Engine.Seq Run.RunC12."
+const c12Import = "From Helm Require Import Common.Strs Engine.Types Engine.Eff Engine.Ops Engine.Cluster Engine.Seq Run.RunC12."
 
 func (*c12) ID() string        { return "C12" }
 func (*c12) CoqImport() string { return c12Import }
@@ -44,18 +44,11 @@ func (*c12) Decode(raw json.RawMessage) (any, error) {
 
 func (*c12) Execute(ci any) any { return c12Execute(ci.(eng.History)) }
 
-// CoqCase: the model gets Helm's hook order but the delete policies the chart DECLARES, so that a policy lost
-// in parsing shows as a correspondence mismatch too
+// CoqCase: the model gets the hook DOCUMENTS (annotation strings) in Helm's order and computes events, weight
+// and delete policies itself (Engine/HookMeta.v), so that whatever Helm loses or misreads in parsing shows as a
+// correspondence mismatch; the hooks Helm parsed are compared with the model's reading in the same case
 func (*c12) CoqCase(ci, oi any) string {
-	h, o := ci.(eng.History), oi.(c12Obs).Obs
-	steps := make([]eng.StepObs, len(o.Steps))
-	copy(steps, o.Steps)
-	for i, s := range h.Steps {
-		if i < len(steps) && s.Op != nil && (s.Op.Kind == "install" || s.Op.Kind == "upgrade") {
-			steps[i].RHooks = withDeclared(steps[i].RHooks, s.Op.Hooks)
-		}
-	}
-	return eng.CoqCase(h, eng.Obs{Steps: steps})
+	return c12CoqCase(ci.(eng.History), oi.(c12Obs).Obs)
 }
 
 // the probe of DESIGN.md: hb(-1), hd(0), ha(5), hz(5) with mixed policies
@@ -152,6 +145,74 @@ func (*c12) Corpus() []any {
 		hk("ha", 1, []string{"pre-install"}),
 	}
 	out = append(out, hist(c12Op("install", 1, eng.Flags{}, st, "a")))
+	out = append(out, c12MetaCorpus()...)
+	return out
+}
+
+// c12MetaCorpus (section 7): hook metadata given as annotation STRINGS.  Each weight set puts hooks on one event whose
+// order under the decimal reading of strconv.Atoi (anything else = 0) differs from other plausible readings
+// (base-0 literal prefixes, octal for a leading zero, trimmed white space, underscores, 32 bits).
+func c12MetaCorpus() []any {
+	var out []any
+	both := "pre-install,post-install"
+	set := func(ws ...string) []eng.Hook {
+		var hs []eng.Hook
+		for i, w := range ws {
+			hs = append(hs, rawHk("h"+string(rune('a'+i)), both, "w", w))
+		}
+		return hs
+	}
+	for _, hs := range [][]eng.Hook{
+		set("10", "09", "08", "02", "01"),                           // zero padded: 1 2 8 9 10 (octal reading: 08, 09 invalid)
+		set("010", "9"),                                             // 9 before 10 (octal: 8 before 9)
+		set("007", "010", "08", "09", "6"),                          //
+		set("0x10", "5"), set("0o7", "3"), set("0b11", "2"),         // not decimal = 0, first
+		set("1_0", "5"), set("5", " 7", "6 ", "\t8", "3\n", "-1"),  // underscores, white space: 0
+		set("+5", "4", "-0", "-08", "-3", "+-2", "--9", "-", "+"),   // signs
+		set("", "abc", "1e3", "1.5", "-1", "1"),                     // empty and non-numeric = 0
+		set("9223372036854775807", "9223372036854775808", "-9223372036854775808", "-9223372036854775809", "1", "-1"),
+		set("2147483648", "-2147483649", "4294967296", "99999999999999999999", "000000000000000000000000000007", "5", "-5"),
+	} {
+		out = append(out, hist(c12Op("install", 1, eng.Flags{}, hs, "a")))
+	}
+	// no weight annotation at all = 0, between -1 and 1
+	out = append(out, hist(c12Op("install", 1, eng.Flags{}, []eng.Hook{rawHk("ha", both, "w", "1"), rawHk("hb", both), rawHk("hc", both, "w", "-1")}, "a")))
+	// zero-padded weights through a whole life cycle (stored and read back by rollback / uninstall), a hook failing at each operation
+	all := "pre-install,post-install,pre-upgrade,post-upgrade,pre-rollback,post-rollback,pre-delete,post-delete"
+	pad := []eng.Hook{rawHk("ha", all, "w", "09", "d", "hook-succeeded"), rawHk("hb", all, "w", "010", "d", "hook-failed"),
+		rawHk("hc", all, "w", "08"), rawHk("hd", all, "w", "1", "d", "before-hook-creation,hook-succeeded")}
+	for k := -1; k < 4; k++ {
+		ops := []*eng.Op{c12Op("install", 1, eng.Flags{}, pad, "a"), c12Op("upgrade", 2, eng.Flags{}, pad, "a", "b"),
+			c12Op("rollback", 0, eng.Flags{}, nil), c12Op("uninstall", 0, eng.Flags{KeepHistory: true}, nil)}
+		if k >= 0 {
+			ops[k] = withH(ops[k], "hb", k%2)
+		}
+		out = append(out, hist(ops...))
+	}
+	// events and delete policies spelled with white space and capitals; "test-success"; an event named twice
+	out = append(out, hist(c12Op("install", 1, eng.Flags{}, []eng.Hook{
+		rawHk("ha", " Pre-Install , POST-INSTALL", "w", "2", "d", "Hook-Succeeded, before-hook-creation "),
+		rawHk("hb", "pre-install\t,\npost-install", "w", "1", "d", " HOOK-FAILED"),
+		rawHk("hc", "PRE-INSTALL,pre-install", "w", "3", "d", "hook-succeeded ,hook-failed"),
+		rawHk("hd", "test-success, Test", "w", "0"),
+	}, "a"), withH(c12Op("upgrade", 2, eng.Flags{}, []eng.Hook{
+		rawHk("ha", "PRE-UPGRADE", "w", "02", "d", "HOOK-SUCCEEDED"),
+		rawHk("hb", " pre-upgrade", "w", "01", "d", "hook-failed , Hook-Succeeded"),
+	}, "a"), "ha", 0)))
+	// one unknown event name drops the whole document (it is neither a hook nor part of the manifest)
+	out = append(out, hist(c12Op("install", 1, eng.Flags{}, []eng.Hook{
+		rawHk("ha", "pre-install,bogus", "w", "1"), rawHk("hb", "pre-install,", "w", "2"), rawHk("hc", "", "w", "3"),
+		rawHk("hd", "pre-install", "w", "4"), rawHk("he", "pre-install,,post-install"), rawHk("hd", "pre-instal", "w", "0"),
+	}, "a")))
+	// unknown delete-policy tokens are stored with the known ones; with a known one beside them nothing changes
+	out = append(out, hist(c12Op("install", 1, eng.Flags{}, []eng.Hook{
+		rawHk("ha", both, "w", "1", "d", "foo,hook-succeeded"), rawHk("hb", both, "w", "2", "d", "hook-failed,,bar"),
+		rawHk("hc", "test", "d", ""), rawHk("hd", "test", "d", "hook-succeded"),
+	}, "a"), c12Op("upgrade", 2, eng.Flags{}, []eng.Hook{rawHk("ha", "pre-upgrade", "d", "foo,hook-succeeded")}, "a")))
+	// output-log policies (ConfigMap hooks: parsed and stored, nothing fetched)
+	out = append(out, hist(c12Op("install", 1, eng.Flags{}, []eng.Hook{
+		rawHk("ha", both, "l", "hook-succeeded"), rawHk("hb", both, "l", " Hook-Failed,hook-succeeded "), rawHk("hc", both, "l", "nonsense,"),
+	}, "a")))
 	return out
 }
 
@@ -182,7 +243,7 @@ func (*c12) Class(ci, oi any) string {
 			flags = "/atomic"
 		}
 	}
-	return fmt.Sprintf("len%d/%s%s", len(h.Steps), fault, flags)
+	return fmt.Sprintf("len%d/%s%s/w:%s", len(h.Steps), fault, flags, c12Families(h))
 }
 
 // c12HookFailed: the operation saw a failing hook (a refused hook POST or the scripted watch failure consumed).
